@@ -57,6 +57,14 @@ def _leaves(test):
 
 
 def _is_typecheck(e):
+    # all(isinstance(x, T) for x in xs) / any(...) over a type test of the elements
+    if isinstance(e, ast.Call) and isinstance(e.func, ast.Name) and e.func.id in ("all", "any") and len(e.args) == 1 \
+            and isinstance(e.args[0], (ast.GeneratorExp, ast.ListComp)):
+        return all(_is_typecheck(l) for l in _leaves(e.args[0].elt))
+    if isinstance(e, ast.Call) and isinstance(e.func, ast.Name) and e.func.id in ("all", "any") and len(e.args) == 1 \
+            and isinstance(e.args[0], ast.Call) and isinstance(e.args[0].func, ast.Name) and e.args[0].func.id == "map" \
+            and e.args[0].args and isinstance(e.args[0].args[0], ast.Lambda):
+        return all(_is_typecheck(l) for l in _leaves(e.args[0].args[0].body))
     if isinstance(e, ast.Call) and isinstance(e.func, ast.Name) and e.func.id in ("isinstance", "callable", "issubclass"):
         return True
     if isinstance(e, ast.Compare) and len(e.ops) == 1 and isinstance(e.ops[0], (ast.Is, ast.IsNot)) \
